@@ -893,7 +893,8 @@ impl World {
 
     /// Generate and execute one whole block (possibly empty / mined).
     pub fn gen_block(&mut self, d: &mut Driver) {
-        if d.height < 0 {
+        // (also when a clearCaches / restart took an uncommitted initialise block away again)
+        if d.height < 0 || (self.base > 0 && d.height < self.base as i64) {
             self.ts += 10;
             let hash = self.block_hash();
             if self.base > 0 {
